@@ -134,4 +134,12 @@ def serve (w : Wit.Cfg) (h : HCfg) (store : Wit.Store) (allow : Bool) (body : By
           let out := Wit.update w (Wit.envOf store id {}) id old cp proof
           (handleUpdate origin h.witV out, some out)
 
+/-- the same endpoint behind the connection wiring of `connectAndServe`: `http.MaxBytesHandler(handler, cap)`
+    makes every read past `cap` bytes fail, so a longer body is a malformed body (400) whatever it contains;
+    the rate limiter is consulted before the body is read; `cap = 0`: no cap -/
+def serveConn (cap : Nat) (w : Wit.Cfg) (h : HCfg) (store : Wit.Store) (allow : Bool) (body : Bytes) : Resp × Option Wit.Out :=
+  if !allow then ({ status := 429 }, none)
+  else if cap ≠ 0 ∧ body.length > cap then ({ status := 400 }, none)
+  else serve w h store allow body
+
 end Bastion
